@@ -37,6 +37,9 @@ def run_selftest(prop, root_src='/repo'):
         for d in sorted(os.listdir(bd)):
             if d.endswith('.diff'):
                 items.append(('benign', d, 'B', None, os.path.join(bd, d), None))
+            elif os.path.exists(os.path.join(bd, d, 'patch.diff')):
+                # agent-written behaviour-preserving refactorings: every property's check must stay silent on each of them
+                items.append(('benign', d, 'B', None, os.path.join(bd, d, 'patch.diff'), None))
     def one(it):
         src, name, kind, rule, patch, edits = it
         rc, rules = _run(prop, root_src, patch, edits)
@@ -47,6 +50,6 @@ def run_selftest(prop, root_src='/repo'):
         else:
             status = 'silent' if rc == 0 else ('analysis-broken' if rc == 2 else 'FALSE-ALARM')
         return {'source': src, 'name': name, 'kind': kind, 'expected_rule': rule, 'exit': rc, 'rules_reporting': rules, 'status': status}
-    with ThreadPoolExecutor(max_workers=8) as ex:
+    with ThreadPoolExecutor(max_workers=12) as ex:
         res = list(ex.map(one, items))
     return res
